@@ -209,6 +209,18 @@ func c07(r *core.Report) {
 		top := vs.Body.List
 		last, ok := top[len(top)-1].(*ast.ReturnStmt)
 		r.Check(ok && len(last.Results) == 1 && na.Classify(fv, last.Results[0], last) == core.NonNil, "orand:no-requirement-met", p.Pos(top[len(top)-1].Pos()), "post-loop return is non-nil", "after trying every requirement without success ValidateSecurityRequirements may return nil")
+		// an alternative that cannot be satisfied (an undeclared scheme) fails alone: no error leaves the
+		// function before every alternative was tried
+		ke := 0
+		ast.Inspect(vs.Body, func(n ast.Node) bool {
+			ret, ok := n.(*ast.ReturnStmt)
+			if !ok || ret == last || len(ret.Results) != 1 || core.IsNil(info, ret.Results[0]) {
+				return true
+			}
+			ke++
+			r.Bad(fmt.Sprintf("orand:early-error#%d", ke), p.Pos(ret.Pos()), "ValidateSecurityRequirements returns an error before the loop over the alternatives has finished: one alternative that cannot be satisfied (an undeclared scheme, say) fails the whole list although another alternative is accepted by the callback, which is then never asked")
+			return true
+		})
 		k := 0
 		ast.Inspect(vs.Body, func(n ast.Node) bool {
 			ret, ok := n.(*ast.ReturnStmt)
@@ -477,6 +489,31 @@ func c07(r *core.Report) {
 				}
 			}
 			r.Check(good, fmt.Sprintf("excl:body#%d", i+1), p.Pos(c.Pos()), "guarded by !ExcludeRequestBody", "ValidateRequestBody is not guarded by !ExcludeRequestBody")
+			// ... and by nothing that is computed from the outcome of another part: a flag set when
+			// security or a parameter failed turns one failure into the exclusion of the body
+			foreign := ""
+			ffv := core.NewFuncFacts(p, info, fd)
+			for _, a := range core.Atoms(core.GuardsAt(info, fd.Body, c)) {
+				ast.Inspect(a.Expr, func(m ast.Node) bool {
+					id, ok := m.(*ast.Ident)
+					if !ok {
+						return true
+					}
+					o, isVar := info.ObjectOf(id).(*types.Var)
+					if !isVar || o.IsField() {
+						return true
+					}
+					if b, isB := o.Type().Underlying().(*types.Basic); !isB || b.Kind() != types.Bool {
+						return true
+					}
+					// a local bool assigned more than once (set, then cleared on some failure)
+					if len(ffv.Assigns(o)) > 1 && foreign == "" {
+						foreign = id.Name
+					}
+					return true
+				})
+			}
+			r.Check(foreign == "", fmt.Sprintf("excl:body-only#%d", i+1), p.Pos(c.Pos()), "the body is validated whatever the other parts said", "whether ValidateRequestBody runs depends on the flag `"+foreign+"`, which is changed along the way (when security or a parameter fails): in multi-error mode a request that fails authentication and has an invalid body is reported without the body's error")
 		}
 		// reads elsewhere
 		for _, opt := range []string{"ExcludeRequestBody", "ExcludeRequestQueryParams"} {
